@@ -175,6 +175,25 @@ fn check_exit_status(ctx: &Ctx, judgements: &[DocJudgement], out: &mut Vec<Viola
             .chain(d.append.iter())
             .any(|p| !sc.docs.iter().any(|x| x.path == format!("{}{}", dir, p)))
     });
+    // a shell that could not be started needs a cause: an injected fault, or a configured shell
+    // that does not exist - the configured shell exists and is executable otherwise
+    if !ctx.facts.spawn_failed.is_empty()
+        && !shell_missing
+        && !ctx.facts.fault_kinds.iter().any(|k| k.starts_with("spawn_error") || k.starts_with("fs_error"))
+        && ctx.facts.peers.is_empty()
+    {
+        out.push(v(
+            "C20",
+            "shell-not-started-without-cause",
+            None,
+            format!(
+                "scrut could not start a shell (errno {:?}) although the configured shell exists and no fault was injected (exit status {}); stderr: {}",
+                ctx.facts.spawn_failed.iter().map(|x| x.1).collect::<Vec<_>>(),
+                status,
+                obs.stderr.lines().filter(|l| !l.trim().is_empty()).last().unwrap_or("").chars().take(200).collect::<String>()
+            ),
+        ));
+    }
     let hard = unparsable
         || missing
         || shell_missing
